@@ -140,3 +140,71 @@ Example C13_hypotheses_satisfiable :
   /\ check_names "privileged_1_0" shipped_lists false c13_example_pod <> []
   /\ order_ok shipped_checks = true.
 Proof. repeat split; try (vm_compute; reflexivity). vm_compute. discriminate. Qed.
+
+(** ---- admission texts (relation [P13_adm] of Spec/PAdm.v) ---- *)
+From Coq Require Import ZArith.
+From PSA Require Import Model.Admission Model.Namespace Spec.P05 Spec.PAdm Proofs.AdmFactsA Proofs.AdmFactsE.
+
+(** the denial message, the warning and the audit annotation of every
+    observation of the model list every violated control of their own
+    level:version - each reason at least as often as controls carry it - and
+    never show the placeholder, for evaluators whose denying results carry a
+    non-empty reason and whose reasons and details do not contain the
+    placeholder.  (The hypothesis [ev_privileged_allows] of the first
+    formulation is kept but not used.) *)
+Theorem C13_admission_texts : forall c ev r w,
+  ev_reasons_specific ev -> ev_privileged_allows ev -> P13_adm c ev r w (validate c ev r w) = true.
+Proof. exact P13_adm_model. Qed.
+Print Assumptions C13_admission_texts.
+
+(** the hypothesis is only needed of the pod (or template) the request evaluates *)
+Theorem C13_admission_texts_on : forall c ev r w,
+  (forall ls p enforced, evaluated_object c r w = Some (ls, p, enforced) -> ev_reasons_specific_on ev p) ->
+  P13_adm c ev r w (validate c ev r w) = true.
+Proof. exact P13_adm_model_on. Qed.
+Print Assumptions C13_admission_texts_on.
+
+(** the shipped registry: reasons are always specific (C13_reasons); what is
+    left is that the details - which quote container, volume, capability ...
+    names taken from the pod - do not spell the placeholder *)
+Theorem C13_admission_texts_shipped : forall c r w,
+  (forall ls p enforced, evaluated_object c r w = Some (ls, p, enforced) -> ev_details_plain_on shipped_ev p) ->
+  P13_adm c shipped_ev r w (validate c shipped_ev r w) = true.
+Proof. exact P13_adm_model_shipped. Qed.
+Print Assumptions C13_admission_texts_shipped.
+
+(** the listing clause alone ([P13_adm] without "never the placeholder") holds
+    of every observation of the model with no hypothesis at all, and is implied
+    by [P13_adm] *)
+Theorem C13_admission_texts_core : forall c ev r w, P13_adm_core c ev r w (validate c ev r w) = true.
+Proof. exact P13_adm_core_model. Qed.
+Print Assumptions C13_admission_texts_core.
+Theorem C13_admission_core_of : forall c ev r w o, P13_adm c ev r w o = true -> P13_adm_core c ev r w o = true.
+Proof. exact P13_adm_core_of. Qed.
+Print Assumptions C13_admission_core_of.
+
+(** the hypothesis on reasons is needed: a denial without reason shows the placeholder *)
+Example C13_admission_texts_needs_hyp :
+  ev_privileged_allows no_reason_ev
+  /\ rs_message (fst (validate cex_cfg no_reason_ev cex_req e13_world))
+     = "violates PodSecurity ""baseline:latest"": unknown forbidden reason"
+  /\ P13_adm cex_cfg no_reason_ev cex_req e13_world (validate cex_cfg no_reason_ev cex_req e13_world) = false
+  /\ P13_adm_core cex_cfg no_reason_ev cex_req e13_world (validate cex_cfg no_reason_ev cex_req e13_world) = true.
+Proof. exact P13_adm_needs_reasons. Qed.
+(** the hypothesis on details is needed, even for the shipped registry: a
+    privileged container NAMED "unknown forbidden reason" *)
+Example C13_admission_texts_needs_plain_details :
+  rs_message (fst (validate cex_cfg shipped_ev odd_req e13_world))
+  = "violates PodSecurity ""baseline:latest"": privileged (container ""unknown forbidden reason"" must not set securityContext.privileged=true)"
+  /\ P13_adm cex_cfg shipped_ev odd_req e13_world (validate cex_cfg shipped_ev odd_req e13_world) = false
+  /\ P13_adm_core cex_cfg shipped_ev odd_req e13_world (validate cex_cfg shipped_ev odd_req e13_world) = true.
+Proof. exact P13_adm_needs_plain_details. Qed.
+(** the hypotheses are satisfiable and the relation is not vacuous: a denial that lists its control *)
+Example C13_admission_texts_satisfiable :
+  (ev_reasons_specific cex_ev /\ ev_privileged_allows cex_ev)
+  /\ evaluated_object cex_cfg cex_req e13_world = Some ([(enforce_level_label, "baseline")], cex_pod, true)
+  /\ rs_allowed (fst (validate cex_cfg cex_ev cex_req e13_world)) = false
+  /\ rs_message (fst (validate cex_cfg cex_ev cex_req e13_world)) = "violates PodSecurity ""baseline:latest"": no"
+  /\ lists_controls cex_ev (LV Baseline Latest) cex_pod
+       (rs_message (fst (validate cex_cfg cex_ev cex_req e13_world))) = true.
+Proof. exact (conj cex_ev_reasons_specific P13_adm_example). Qed.
